@@ -1,4 +1,5 @@
 import RexModel.Async.Machine
+import RexModel.Async.Pipeline
 import Mathlib.Algebra.Order.Field.Basic
 import Mathlib.Tactic.Linarith
 import Mathlib.Order.Monotone.Basic
@@ -217,6 +218,67 @@ theorem ts_max_fold_ge {α : Type} [LinearOrder α] [NatCast α] (xs : List α) 
     rintro x (rfl | hx)
     · exact le_trans (le_max_right _ _) h1
     · exact h2 x hx
+
+section Machine
+variable {T : Type} [TimeLike T]
+
+/-- the arrival queue of a connection holds (sequence number, receive time) pairs -/
+def allTickTs : List (Val T) → Prop
+  | [] => True
+  | .tickTs _ _ :: r => allTickTs r
+  | _ :: _ => False
+
+/-- **The machine's LATEST rule is the policy function**: the number of messages `push_expected_nonblocking` hands to a step
+is the length of the maximal leading run of arrivals that may be consumed (`¬ break`), computed on the receive times. -/
+theorem machine_latest_count (cc : ConnCfg T) (hj : cc.jitter = 0) (tsStep : T) (pre : List (Val T)) (h : allTickTs pre) :
+    nbCount cc tsStep pre = ((timesOf pre).takeWhile fun ts => !nb_latest_break cc.skip ts tsStep).length := by
+  unfold nbCount
+  induction pre with
+  | nil => rfl
+  | cons v r ih =>
+    cases v with
+    | tickTs seq ts =>
+      simp only [allTickTs] at h
+      simp only [List.takeWhile_cons, timesOf, hj]
+      have hne : ((0 : Nat) == 1) = false := rfl
+      simp only [hne, Bool.false_eq_true, if_false]
+      cases hb : (!nb_latest_break cc.skip ts tsStep) with
+      | true => simp only [if_true, List.length_cons]; rw [← ih h]; simp [hj]
+      | false => simp
+    | _ => simp [allTickTs] at h
+
+end Machine
+
+/-- … hence every message the machine's LATEST rule hands to a step had arrived when the step started (strictly before, if
+skipped), and with FIFO arrivals the first message left behind could not have been consumed. -/
+theorem machine_latest_policy {α : Type} [LinearOrder α] (skip : Bool) (tsStep : α) (q : List α) (hs : q.Pairwise (· ≤ ·)) :
+    (∀ ts ∈ q.take ((q.takeWhile fun ts => !nb_latest_break skip ts tsStep).length), mayConsume skip ts tsStep) ∧
+    (∀ ts ∈ q.drop ((q.takeWhile fun ts => !nb_latest_break skip ts tsStep).length), ¬ mayConsume skip ts tsStep) := by
+  have key : ∀ (p : α → Bool) (l : List α), l.take (l.takeWhile p).length = l.takeWhile p ∧ l.drop (l.takeWhile p).length = l.dropWhile p := by
+    intro p l
+    induction l with
+    | nil => simp
+    | cons a l ih =>
+      simp only [List.takeWhile_cons, List.dropWhile_cons]
+      cases p a <;> simp [ih.1, ih.2]
+  have e1 := (key (fun ts => !nb_latest_break skip ts tsStep) q).1
+  have e2 := (key (fun ts => !nb_latest_break skip ts tsStep) q).2
+  rw [e1, e2]
+  exact ⟨latest_consumed_arrived skip tsStep q, latest_rest_not_consumable skip tsStep q hs⟩
+
+/-- **Exactly once, in arrival order, under every schedule** (machine level, last stage of a connection): along every execution
+of the asynchronous machine, the sequence "messages recorded as consumed, followed by messages arrived but not yet consumed" of a
+connection only ever grows at its end. Hence at every moment the consumed messages are the leading part of the arrival order: none
+is lost, duplicated or overtaken between `push_zip` and `push_selection`, whatever the thread interleaving. -/
+theorem C03_consumption_is_arrival_prefix {T : Type} [TimeLike T] (cfg : Cfg T) (c : Nat) {σ τ : List Rule} {s s' : MSt T}
+    (_h : Rex.Conf.Run (machine cfg).toNet.sys (initState cfg) σ s) (h' : Rex.Conf.Run (machine cfg).toNet.sys s τ s') :
+    seqsRec (s.q (.conn c .record)) ++ seqsOf (s.q (.conn c .msgs))
+      <+: seqsRec (s'.q (.conn c .record)) ++ seqsOf (s'.q (.conn c .msgs)) :=
+  pipe_prefix_run cfg c h'
+
+/-- nothing is consumed before the episode starts -/
+theorem C03_pipe_init {T : Type} [TimeLike T] (cfg : Cfg T) (c : Nat) : pipe c (initState cfg) = [] := by
+  simp [pipe, initState, seqsRec, seqsOf]
 
 -- non-vacuity: a FIFO queue with a tie on a skipped connection
 example : mayConsume (α := ℚ) false 1 1 ∧ ¬ mayConsume (α := ℚ) true 1 1 := by
